@@ -641,6 +641,11 @@ func (p *parser) parseCallExpression(function ast.Expression) ast.Expression {
 		Function:  function,
 	}
 
+	if function == nil {
+		// the expression before '(' did not parse; its error is already recorded
+		return nil
+	}
+
 	ss := strings.Split(function.String(), ".")
 
 	if len(ss) > 1 {
